@@ -152,6 +152,9 @@ func genHostile(rt *rapid.T, tn string, maxSize int, hint int) (*CaseBytes, []st
 	default:
 		o := DefaultOpts(Wire)
 		o.BigProb, o.MaxList = 60, 600
+		if rapid.IntRange(0, 7).Draw(rt, "bigbase") == 0 { // a large valid message as the base of the mutation
+			o.BigProb, o.MaxList = 3, 8000
+		}
 		v, _ := GenValue(rt, tn, o)
 		r := Render(v, &RenderOpts{Spans: true})
 		w, kind, over := mutateHostile(rt, r, ts.LE, hint)
